@@ -22,6 +22,8 @@ RULE = ('Hypothesis-generated histories: 1-4 coroutine scripts whose steps are (
         'position, expected promise value) stepped alongside; the execution log is validated entry by entry, '
         'state()/promise.state compared after every external step and at every in-body query. '
         'In ~10% of the cases every script exists in 90-200 copies (waits scaled differently), external start / kill act on the copies (kills spare every fifth) and ten closing frames follow. '
+        ''
+        'A finished generator may be started again; a body may raise once (tail: released within two frames); the program may drop a generator and keep only its promise. '
         'Non-trivial = a '
         'kill followed by a start of the same generator with no process in between, or a kill/start issued from '
         'inside a body, or a kill of a paused coroutine. Distinct = sha1 of canonical JSON.')
